@@ -295,10 +295,13 @@ fn child_body(w: &mut Worker, hist: &[Sess], prop: &str) -> Value {
     let mut viols = vec![];
     let mut states = vec![];
     let mut calls = 0u64;
+    let mut starved = false;
     for (i, s) in hist.iter().enumerate() {
         let (want, want_out) = expected(s);
         let want: Vec<String> = want.iter().map(|x| norm_ids(x)).collect();
+        let t_start = std::time::Instant::now();
         let r = std::panic::catch_unwind(std::panic::AssertUnwindSafe(|| run_session(w, &kb, s, &mut kept)));
+        let took = t_start.elapsed();
         let (got, out) = match r {
             Ok(x) => x,
             Err(p) => {
@@ -309,6 +312,13 @@ fn child_body(w: &mut Worker, hist: &[Sess], prop: &str) -> Value {
         calls += got.len() as u64;
         let stopped = suiron::query_stopped();
         states.push(format!("{}|{}", stopped, suiron::get_var_id()));
+        if got != want && !is_slow(s) && took.as_millis() > 400 && got.iter().any(|x| x.starts_with("Query timed out")) {
+            // the machine is so loaded that a microsecond search was off the CPU for most of a
+            // second: the limit really was exceeded in wall time.  Not a verdict: the parent re-runs
+            // the history.
+            starved = true;
+            break;
+        }
         if got != want || out != want_out {
             // alone (history of length 1) it is the single-session behaviour that is wrong:
             // C23 for the string modes; in a longer history it is C22
@@ -322,7 +332,7 @@ fn child_body(w: &mut Worker, hist: &[Sess], prop: &str) -> Value {
     for n in &kept.nodes {
         dismantle(n);
     }
-    json!({"viols": viols, "states": states, "calls": calls, "sessions": hist.len()})
+    json!({"viols": viols, "states": states, "calls": calls, "sessions": hist.len(), "starved": starved})
 }
 
 /// Fork, run the history in the child, read its report.  The parent never
@@ -473,7 +483,21 @@ pub fn worker(prop: &str, tier: &str) {
         }
         w.begin(my);
         let slow = h.iter().filter(|s| is_slow(s)).count() as u64;
-        match run_history_forked(w, &h, prop, 30 + 5 * slow) {
+        let mut result = run_history_forked(w, &h, prop, 300 + 5 * slow);
+        for _ in 0..5 {
+            match &result {
+                Ok(rep) if rep["starved"].as_bool().unwrap_or(false) => {
+                    w.count("histories.rerun_because_starved", 1);
+                    std::thread::sleep(std::time::Duration::from_millis(500));
+                    result = run_history_forked(w, &h, prop, 300 + 5 * slow);
+                }
+                _ => break,
+            }
+        }
+        match result {
+            Ok(rep) if rep["starved"].as_bool().unwrap_or(false) => {
+                w.count("histories.inconclusive_starved", 1);
+            }
             Ok(rep) => {
                 w.count("histories", 1);
                 w.count(&format!("histories.len{}", h.len()), 1);
